@@ -12,6 +12,7 @@ coq/Gen/ConstsC05.v (fail-closed).
     (`assert a == b`, both sides normalised, unordered) -- the models' preconditions
     cite them; a relation that disappears breaks the `pyx_contract` obligations.
 Only values are extracted; no other text of the source is compared."""
+import ast
 import re
 from fractions import Fraction
 
@@ -88,6 +89,30 @@ def pyx_contracts(repo):
     return out
 
 
+def coord2cell_checks_columns(repo):
+    """Does Grid.coord2cell raise unless xycoords has two columns (`.shape[1] != 2`)?"""
+    rel = "src/hydrodiy/gis/grid.py"
+    tree = ast.parse(_read(repo, rel))
+    for cls in tree.body:
+        if isinstance(cls, ast.ClassDef) and cls.name == "Grid":
+            for fn in cls.body:
+                if isinstance(fn, ast.FunctionDef) and fn.name == "coord2cell":
+                    for node in ast.walk(fn):
+                        if isinstance(node, ast.If) and any(isinstance(x, ast.Raise) for x in ast.walk(node)):
+                            for cmp_ in ast.walk(node.test):
+                                if isinstance(cmp_, ast.Compare) and len(cmp_.ops) == 1 \
+                                        and isinstance(cmp_.ops[0], ast.NotEq):
+                                    l, r = cmp_.left, cmp_.comparators[0]
+                                    for a, b in ((l, r), (r, l)):
+                                        if isinstance(b, ast.Constant) and b.value == 2 \
+                                                and isinstance(a, ast.Subscript) \
+                                                and isinstance(a.value, ast.Attribute) and a.value.attr == "shape" \
+                                                and isinstance(a.slice, ast.Constant) and a.slice.value == 1:
+                                            return True
+                    return False
+    raise BrokenTie(f"{rel}: Grid.coord2cell not found")
+
+
 def render(repo):
     nmax = c_define(repo, H_AR, "ARMODEL_NPARAMSMAX")
     if not re.fullmatch(r"\d+", nmax):
@@ -146,6 +171,9 @@ def render(repo):
          f"Definition PERCMAX_NUM : Z := {perc.numerator}.",
          f"Definition PERCMAX_DEN : Z := {perc.denominator}.",
          f"Definition VORONOI_DISTMIN_EXP : Z := {int(mm.group(1))}.",
+         "",
+         "(* Grid.coord2cell (grid.py) raises unless the coordinate array has two columns *)",
+         f"Definition GRID_COORD2CELL_CHECKS_TWO_COLUMNS : bool := {'true' if coord2cell_checks_columns(repo) else 'false'}.",
          "",
          "(* shape relations asserted by the Cython wrappers: (package, wrapper, relations) *)",
          "Definition PYX_CONTRACTS : list (string * string * list string) := ["]
